@@ -35,13 +35,18 @@ CHECKS = {
     'C03': _s('BFS over histories incl. partition re-assignment, trait/label '
               'changes, freeze/down, leases under a virtual clock; every new '
               'placement is checked against the eligibility predicate and '
-              'every placed instance against its partition/traits.', '5/C03'),
+              'every placed instance against its partition/traits; on the '
+              'real master the allocation, partition and traits are resolved '
+              'from the stored /allocations and /servers records (incl. trait '
+              'codes learned from server records only).', '5/C03'),
     'C04': _s('BFS over pressure histories on a 2x2 cell with limits on every '
               'level subset; per node true affinity counts are recomputed and '
               'compared with limits and with the kept counters.', '5/C04'),
     'C05': _s('BFS over histories of arrivals, evictions, failures, '
               'blacklisting and group count changes with up to 2 skipped '
-              'cycles; identity invariants recomputed from Cell.apps.',
+              'cycles (incl. a group shrinking while holders sit on frozen '
+              'or down servers); identity invariants recomputed from '
+              'Cell.apps.',
               '5/C05'),
     'C07': _s('BFS over pressure histories; the queue handed to placement is '
               'captured per cycle and every displaced healthy instance must '
@@ -49,7 +54,9 @@ CHECKS = {
               'priority-0 ties, leases, two allocations, reboot buckets).', '5/C07'),
     'C08': _s('BFS over down/up/frozen transitions and clock advances around '
               'the retention timeouts against a reference automaton on '
-              'logical seconds.', '5/C08'),
+              'logical seconds; across master restarts the records published '
+              'under down-within-retention and frozen servers are compared '
+              'before/after start-up on ZooKeeper alone.', '5/C08'),
     'C09': _s('BFS over histories of ZooKeeper-level events driving the real '
               'Master/ZkBackend/masterapi on an in-memory ZooKeeper, incl. '
               'restarts and skipped cycles; after every init_schedule/'
@@ -69,7 +76,9 @@ CHECKS = {
                    'writes of each publication step'),
     'C11': _s('At every state of a World-B BFS a fresh Master runs '
               'load_model() on a copy of the stored tree and is compared '
-              'with every record under a healthy server.', '5/C11',
+              'with every record under a healthy server; one-partition, '
+              'two-partition and lease-next-to-reboot configurations.',
+              '5/C11',
               note=NOTE_B),
     'C06': _s('Bounded-exhaustive sweep of the real Allocation/Cell code: every '
               'forest shape of <=3 (quick) / <=4 (thorough) allocation nodes, '
@@ -160,7 +169,12 @@ CHECKS = {
               'ZooKeeper payloads to depth 3; Application/CellAllocation/'
               'Partition LDAP entries incl. all 2^19 field subsets, keyed '
               'lists and the create/update/get path on an in-memory entry '
-              'store); round trip, idempotence and sweep-wide injectivity.',
+              'store; the identity kept only in the DN: nested tenants of '
+              'depth 1-3, reversal/prefix names, through the real dn() -> '
+              'create -> get/list/from_entry(entry, dn) path with exact '
+              'Tenant.reservations/Allocation.reservations/Cell.partitions '
+              'listings); round trip, idempotence and sweep-wide '
+              'injectivity.',
               '5/C15',
               note='"," and "/" reserved by the node-name format; None == "" '
                    'is the only trace normalisation; unique ids: a stated '
